@@ -686,7 +686,7 @@ def main():
 
         # (1) every registered strategy on its own: mixed library, all sink configurations
         npairs = 40 if quick else 120
-        reps = 1 if quick else 4
+        reps = 1 if quick else 3
         for rep in range(reps):
             for name in loader.names:
                 for mates in ((2,) if quick and name not in SE_NAMES and rng.random() < 0.6 else (2, 1)):
@@ -802,33 +802,34 @@ def main():
                                               dict(base, hasRej=True, percell=True, maxpairs=rng.randint(1, n), nofile=rng.randint(2, 4),
                                                    lanes=2, lane_split=rng.randint(0, n))], workdir)
 
-        # (6) the real command line entry point (loads its own barcode files: a few seconds per run)
-        for i in range(1 if quick else 8):
+        # (6) the real command line entry point (python -m ...demux through runpy; it loads its own barcode files)
+        for i in range(3 if quick else 16):
             name = rng.choice(['CS2C8U6', 'NLAIII384C8U3', 'scCHIC384C8U3', 'MSPJIC8U3', 'DamID2'])
             mates = 2 if i % 4 != 3 else 1
             strategies = loader.select([name])
             n = rng.randint(10, 40)
-            pairs = make_library(rng, loader, strategies, n, mates, focus=0)
+            pairs = make_library(rng, loader, strategies, n, mates, focus=0,
+                                 content_classes=None if i % 3 else ['exact', 'exact', 'exact', 'unknown', 'mm1', 'empty'])
             cfg = {'lib': 'CLILIB', 'mates': mates, 'hasRej': i % 3 != 2, 'percell': i % 2 == 1,
                    'maxpairs': 0 if i % 4 != 2 else rng.randint(1, n)}
-            if i % 2 == 1 or quick:
+            if i % 2 == 1 or i == 0:
                 cfg.update(nofinalnl=True, eol='crlf' if i % 4 == 3 else 'lf')
             if i == 5:
                 cfg['lib'] = 'CLILIB' + 'x' * 78
-            if quick:       # the usual way of working: -n k to have a look, then the real run into the same -o, one file per cell
+            if i == 0:      # the usual way of working: -n k to have a look, then the real run into the same -o, one file per cell
                 cfg.update(percell=True, prior='testrun', prior_k=rng.randint(1, n))
             elif i % 4 == 1:
                 cfg.update(prior='testrun', prior_k=rng.randint(1, n))
             elif i % 4 == 2:
                 cfg.update(prior='other')
-            elif i % 4 == 0 and i:
+            elif i % 4 == 0:
                 cfg.update(lanes=2, lane_split=rng.randint(1, n - 1), percell=True, maxpairs=rng.choice([0, rng.randint(1, n)]))
-            if quick or i in (4, 7):
-                cfg['cli_reverse'] = True
-            if i == 6:
-                cfg['cli_extra_lib'] = True
+            if i in (0, 4, 7, 11):
+                cfg['cli_reverse'] = True       # file arguments in reverse order
+            if i in (2, 6, 10):
+                cfg['cli_extra_lib'] = True     # a second library (CLILIB1) in the same invocation
             use = [name]
-            if quick or i in (3, 4, 6):     # no -use: probe pass over the library, then the best scoring strategy
+            if i in (0, 1, 3, 6, 9, 12, 15):    # no -use: probe pass over the library, then the best scoring strategy
                 sel = autodetect(loader, pairs, cfg, workdir)
                 if len(sel) == 1:
                     cfg['cli_auto'], use = True, sel
